@@ -402,7 +402,7 @@ def subdivide_cubic_bspline(
         raise TypeError("subdivide_cubic_bspline() 'data' must be torch.Tensor")
     if not torch.is_floating_point(data):
         raise TypeError("subdivide_cubic_bspline() 'data' must have floating point dtype")
-    if data.ndim < 4:
+    if data.ndim < 3:
         raise ValueError("subdivide_cubic_bspline() 'data' must have shape (N, C, ..., X)")
     if dims is None:
         dims = tuple(range(data.ndim - 2))
